@@ -91,6 +91,9 @@ SPECS = {
     'speriodogram': dict(module='periodogram', unsupported_if=('x.ndim == 2',)),
     # T10: arma_estimate with CORRELATION, arcovar_marple (P <= 4) and ma embedded; the scipy-lstsq solver arcovar (P > 4) stays an ORACLE call
     'arma_estimate': dict(module='arma', oracle_calls=('arcovar',)),
+    # T10: lpc: fft / ifft over the hidden twiddle parameter, tools.nextpow2 as the primitive [ENextPow2], LEVINSON embedded; `x.resize(N+1)` updates the
+    # PARAMETER in place (visible to the caller: not modelled)
+    'lpc': dict(module='lpc', own_params=('x',)),
 }
 # oracle calls of a function when it is translated as a CALLEE (its hidden oracle parameters become hidden parameters of the caller)
 CALLEE_ORACLES = {('correlation', 'CORRELATION'): ('pylab_rms_flat',)}
@@ -266,7 +269,8 @@ class FnTranslator:
         self.local_imports = {}                                # name -> (module, function): `from .M import f` at the head of the function body
         self.tuple_vars = {}                                   # name -> slots of the values of the tuple a call returned (T6)
         self.np_names = set(); self.logging_names = set(); self.nodes = 0
-        self.fft_names = {}           # T7: local name -> 'fft' | 'rfft' (bound exactly once at module level by `from numpy.fft import ..`)
+        self.fft_names = {}           # T7: local name -> 'fft' | 'rfft' | (T10) 'ifft' (bound exactly once at module level by `from numpy.fft import ..`)
+        self.npfun_names = {}         # T10: local name -> 'real' (bound exactly once at module level by `from numpy import real`)
         self.window_names = set()     # T7: names bound exactly once at module level to the package's Window class
         self.local_modules = {}       # T7: name -> module: `from . import M [as m]` as a statement inside the function body
         for n in modtree.body:
@@ -279,8 +283,13 @@ class FnTranslator:
             if isinstance(n, ast.ImportFrom) and n.level == 0 and n.module == 'numpy.fft':
                 for a in n.names:
                     g = a.asname or a.name
-                    if a.name in ('fft', 'rfft') and len(name_bindings(modtree, g)) == 1:
+                    if a.name in ('fft', 'rfft', 'ifft') and len(name_bindings(modtree, g)) == 1:
                         self.fft_names[g] = a.name
+            if isinstance(n, ast.ImportFrom) and n.level == 0 and n.module == 'numpy':
+                for a in n.names:          # T10: `from numpy import real` (lpc.py): a name bound exactly once at module level to numpy.real
+                    g = a.asname or a.name
+                    if a.name in ('real',) and len(name_bindings(modtree, g)) == 1:
+                        self.npfun_names[g] = a.name
             if isinstance(n, ast.ImportFrom) and package_module_of(n) == 'window':
                 for a in n.names:
                     g = a.asname or a.name
@@ -368,6 +377,8 @@ class FnTranslator:
             if isinstance(n, ast.Assign) and isinstance(n.value, ast.Call) and isinstance(n.value.func, ast.Name) \
                     and n.value.func.id in self.crit_class and len(n.targets) == 1 and isinstance(n.targets[0], ast.Name):
                 self.crit_objs.add(n.targets[0].id)
+        self.tw_slot_needed = any(isinstance(n, ast.Call) and isinstance(n.func, ast.Name) and n.func.id in self.fft_names and n.func.id not in self.assigned
+                                  for s in kept for n in ast.walk(s))
         self.find_calls(kept)
         self.find_list_vars(fn)
         # names bound to a list display / comprehension somewhere: Python lists; `+`, `*`, `+=` on them concatenate / repeat, the IR's arrays do not
@@ -418,7 +429,12 @@ class FnTranslator:
             self.tw_slot = self.new_slot(TW_KEY); self.oracle_params.append(TW_KEY); defaults.append(None)
         self.params = params + self.oracle_params
         self.oracle_params_only = list(self.oracle_params)
-        self.check_aliasing(body, set(params))
+        # T10: `own_params` of a spec (lpc's x): the function updates this parameter in place (x.resize); the update is visible to the CALLER, which the
+        # tie does not model (a top-level program has no caller inside the IR); inside the function the parameter has no other name
+        own = set(spec.get('own_params', ()))
+        if own - set(params):
+            self.fail(fn, 'own_params of the spec are not parameters')
+        self.check_aliasing(body, set(params) - own)
         # body
         if 'skip' in spec:
             stm = self.block(kept, top=True)
@@ -660,6 +676,12 @@ class FnTranslator:
         rhs = {id(n.value) for n in allnodes if isinstance(n, ast.Assign) and len(n.targets) == 1}
         rhs |= {id(n.value) for s in stmts for n in ast.walk(s) if isinstance(n, ast.Expr)}      # T7: `f(..)` as a statement (errors.is_positive_integer(order))
         for c in cand:
+            if hasattr(c, '_primitive'):
+                delattr(c, '_primitive')
+            prim = self.primitive_callee(c)
+            if prim is not None:
+                c._primitive = prim           # T10: tools.nextpow2 -> [ENextPow2]: not embedded, translated where it occurs
+                continue
             r = self.resolve_callee(c.func, c)
             if r is None:
                 continue
@@ -867,7 +889,7 @@ class FnTranslator:
     # ---------------------------------------------------------------- aliasing (arrays have value semantics in the IR)
     FRESH_CALLS = {'zeros', 'array', 'insert', 'concatenate', 'copy', 'astype', 'float', 'len', 'abs', 'max', 'min', 'sum',
                    'dot', 'conjugate', 'conj', 'isrealobj',
-                   'fft', 'rfft', 'fftshift', 'mean'}
+                   'fft', 'rfft', 'fftshift', 'mean', 'ifft'}
 
     def is_fresh(self, e):
         if isinstance(e, (ast.Constant, ast.BinOp, ast.UnaryOp, ast.Compare, ast.BoolOp, ast.ListComp, ast.List, ast.Tuple)):
@@ -1406,6 +1428,9 @@ class FnTranslator:
             return '(EVar %d)' % s
         if isinstance(e, ast.BinOp):
             if isinstance(e.op, ast.Pow):
+                if isinstance(e.left, ast.Constant) and type(e.left.value) is int and e.left.value == 2 and not self.is_two(e.right) \
+                        and self.tw_slot is not None and isinstance(e.right, ast.Call) and hasattr(e.right, '_primitive'):
+                    return '(EPow2 %s)' % self.expr(e.right)          # T10: 2**nextpow2(..) (an int power of two: the fft length of lpc)
                 if not self.is_two(e.right):
                     self.fail(e, 'power other than 2')
                 b = e.left
@@ -1512,6 +1537,53 @@ class FnTranslator:
             return self.call(e)
         self.fail(e, 'expression')
 
+    def int_expr(self, e):
+        """T10: the argument of nextpow2, read in INTEGER arithmetic: int literals, float literals with an integer value (`2.`), len(<name>),
+        names, + - * of such (the float the code computes is that integer exactly while it is < 2^52)"""
+        self.nodes += 1
+        if isinstance(e, ast.Constant) and type(e.value) in (int, float) and float(e.value) == int(e.value) and abs(e.value) < 1 << 30:
+            return '(EInt %s)' % zlit(int(e.value))
+        if isinstance(e, ast.Name):
+            return self.expr(e)
+        if isinstance(e, ast.Call) and isinstance(e.func, ast.Name) and e.func.id == 'len' and 'len' not in self.assigned and len(e.args) == 1 \
+                and not e.keywords and isinstance(e.args[0], ast.Name):
+            return '(ELen %s)' % self.expr(e.args[0])
+        if isinstance(e, ast.BinOp) and isinstance(e.op, (ast.Add, ast.Sub, ast.Mult)):
+            return '(EBin %s %s %s)' % (BINOPS[type(e.op)], self.int_expr(e.left), self.int_expr(e.right))
+        self.fail(e, 'argument of nextpow2 that is not integer arithmetic over len() / names / integer-valued literals')
+
+    PRIMITIVE_CALLEES = {('tools', 'nextpow2'): ('ENextPow2', ['x'], ["res = ceil(log2(x))", "return res.astype('int')"], ('ceil', 'log2'))}
+
+    def primitive_callee(self, c):
+        """T10: a call of a package function that is an IR PRIMITIVE (tools.nextpow2 -> [ENextPow2]): accepted only while the function's text
+        is, verbatim, the one the primitive stands for, and the numpy functions it calls are bound exactly once by `from numpy import ..`"""
+        if not (isinstance(c.func, ast.Name) and self.loader is not None and self.tw_slot_needed):
+            return None
+        name = c.func.id
+        argnames = {x.arg for x in self.fn.args.args} | set(self.spec.get('params', ()))
+        if name in self.assigned or name in argnames or name in self.local_imports:
+            return None
+        b = name_bindings(self.modtree, name)
+        if len(b) != 1 or b[0][0] != 'import' or package_module_of(b[0][1]) is None:
+            return None
+        M = package_module_of(b[0][1]); orig = b[0][2].name
+        if (M, orig) not in self.PRIMITIVE_CALLEES:
+            return None
+        prim, params, text, npnames = self.PRIMITIVE_CALLEES[(M, orig)]
+        tree = self.loader.tree(M, c)
+        fndef = find_function(tree, orig, c, modname=M + '.py')
+        body = [x for x in fndef.body if not (isinstance(x, ast.Expr) and isinstance(x.value, ast.Constant) and isinstance(x.value.value, str))]
+        a = fndef.args
+        if fndef.decorator_list or a.vararg or a.kwarg or a.kwonlyargs or a.posonlyargs or a.defaults or [x.arg for x in a.args] != params \
+                or [ast.unparse(x) for x in body] != text:
+            self.fail(c, 'the text of %s.%s is not the one the IR primitive %s stands for' % (M, orig, prim))
+        for g in npnames:
+            bb = name_bindings(tree, g)
+            if len(bb) != 1 or bb[0][0] != 'import' or not isinstance(bb[0][1], ast.ImportFrom) or bb[0][1].level != 0 or bb[0][1].module != 'numpy' \
+                    or bb[0][2].name != g or bb[0][2].asname not in (None, g):
+                self.fail(c, '%s is not bound exactly once by `from numpy import %s` in %s.py' % (g, g, M))
+        return prim
+
     def matrix_index(self, e):
         """U[i, j], U[i, lo:hi:step], U[lo:hi:step, j] on a matrix name"""
         if not (isinstance(e.value, ast.Name) and e.value.id in self.matrix_vars and len(e.slice.elts) == 2 and isinstance(e.ctx, ast.Load)):
@@ -1581,7 +1653,14 @@ class FnTranslator:
                         self.fail(e, 'fft along an axis other than 0 / -1')
                 a = self.expr(e.args[0])
                 n = 'None' if len(e.args) == 1 else '(Some %s)' % self.expr(e.args[1])
-                return '(%s %s %s (EVar %d))' % ('EFft' if self.fft_names[f.id] == 'fft' else 'ERfft', a, n, self.tw_slot)
+                return '(%s %s %s (EVar %d))' % ({'fft': 'EFft', 'rfft': 'ERfft', 'ifft': 'EIfft'}[self.fft_names[f.id]], a, n, self.tw_slot)
+            if f.id in self.npfun_names and self.npfun_names[f.id] == 'real' and len(e.args) == 1 and not kws and self.lookup(f.id) is None:
+                return '(EReal %s)' % self.expr(e.args[0])            # T10: real(z) for `from numpy import real`
+            if hasattr(e, '_primitive'):
+                # T10: tools.nextpow2(<integer-valued arithmetic>) (text of nextpow2 verified in find_calls)
+                if len(e.args) != 1 or kws or isinstance(e.args[0], ast.Starred):
+                    self.fail(e, 'nextpow2 with unexpected arguments')
+                return '(%s %s)' % (e._primitive, self.int_expr(e.args[0]))
             if kws:
                 self.fail(e, 'keyword arguments')
             n = len(e.args)
@@ -2152,6 +2231,70 @@ SELFTEST5_BAD = [           # (what, module, old, new)
 ]
 
 
+# T10 (lpc): ifft, `from numpy import real`, tools.nextpow2 as an IR primitive (its text is verified), 2**nextpow2(..), in-place resize of a parameter the
+# spec declares the function's own
+SELFTEST6_SPEC = dict(module='modl', own_params=('x',))
+SELFTEST6_OK = {
+    '__init__': """
+from .tools import *
+from .modl import *
+""",
+    'tools': """
+import numpy as np
+from numpy import ceil, log2
+__all__ = ['nextpow2']
+def nextpow2(x):
+    \"\"\"doc\"\"\"
+    res = ceil(log2(x))
+    return res.astype('int')
+""",
+    'modl': """
+from numpy.fft import fft, ifft
+from .tools import nextpow2
+from numpy import real
+__all__ = ['f']
+def f(x, y, N=None):
+    m = len(x)
+    if N is not None:
+        x.resize(N+1)
+    X = fft(x, 2**nextpow2(2.*len(x)-1))
+    R = real(ifft(abs(X)**2))
+    R = R/(m-1.)
+    return R, y
+""",
+}
+SELFTEST6_BAD = [           # (what, module, old, new)
+    ('nextpow2 with another text', 'tools', "res = ceil(log2(x))", "res = ceil(log2(x)) + 1"),
+    ('nextpow2 with a second statement', 'tools', "    res = ceil(log2(x))", "    x = abs(x)\n    res = ceil(log2(x))"),
+    ('nextpow2 with a default argument', 'tools', "def nextpow2(x):", "def nextpow2(x=1):"),
+    ('nextpow2 decorated', 'tools', "def nextpow2(x):", "@staticmethod\ndef nextpow2(x):"),
+    ('nextpow2 over a rebound ceil', 'tools', "from numpy import ceil, log2", "from numpy import ceil, log2\nceil = abs"),
+    ('nextpow2 over math.log2', 'tools', "from numpy import ceil, log2", "from numpy import ceil\nfrom math import log2"),
+    ('nextpow2 over a renamed numpy function', 'tools', "from numpy import ceil, log2", "from numpy import ceil, log10 as log2"),
+    ('nextpow2 defined twice', 'tools', "def nextpow2(x):", "def nextpow2(x, y):\n    return x\ndef nextpow2(x):"),
+    ('nextpow2 rebound in the calling module', 'modl', "from .tools import nextpow2", "from .tools import nextpow2\nnextpow2 = len"),
+    ('nextpow2 of a non-integer literal', 'modl', "nextpow2(2.*len(x)-1)", "nextpow2(2.5*len(x)-1)"),
+    ('nextpow2 of a quotient', 'modl', "nextpow2(2.*len(x)-1)", "nextpow2(len(x)/2)"),
+    ('nextpow2 of len of an expression', 'modl', "nextpow2(2.*len(x)-1)", "nextpow2(2.*len(x[1:])-1)"),
+    ('nextpow2 with two arguments', 'modl', "nextpow2(2.*len(x)-1)", "nextpow2(2.*len(x)-1, 2)"),
+    ('power of three', 'modl', "2**nextpow2(", "3**nextpow2("),
+    ('power of two of a name', 'modl', "2**nextpow2(2.*len(x)-1)", "2**m"),
+    ('power of two of an expression over nextpow2', 'modl', "2**nextpow2(2.*len(x)-1)", "2**(nextpow2(2.*len(x)-1) + 1)"),
+    ('float base', 'modl', "2**nextpow2(", "2.**nextpow2("),
+    ('real rebound', 'modl', "from numpy import real", "from numpy import real\nreal = abs"),
+    ('another numpy function under the name real', 'modl', "from numpy import real", "from numpy import imag as real"),
+    ('real imported from elsewhere', 'modl', "from numpy import real", "from cmath import phase as real"),
+    ('real with two arguments', 'modl', "real(ifft(abs(X)**2))", "real(ifft(abs(X)**2), 1)"),
+    ('ifft with a norm keyword', 'modl', "ifft(abs(X)**2)", "ifft(abs(X)**2, norm='forward')"),
+    ('ifft rebound', 'modl', "from numpy.fft import fft, ifft", "from numpy.fft import fft, ifft\nifft = fft"),
+    ('irfft', 'modl', "ifft(abs(X)**2)", "irfft(abs(X)**2)"),
+    ('resize of a parameter that is not the function\'s own', 'modl', "x.resize(N+1)", "y.resize(N+1)"),
+    ('resize of the own parameter after it got a second name', 'modl', "        x.resize(N+1)", "        z = x\n        x.resize(N+1)"),
+    ('resize of the own parameter through a view', 'modl', "        x.resize(N+1)", "        z = x[1:]\n        z.resize(N+1)"),
+    ('resize to a shape', 'modl', "x.resize(N+1)", "x.resize((N+1, 1))"),
+]
+
+
 def translator_selftest():
     """the names of the self-test edits that the translator wrongly accepts (must be empty), or a failure of the base case"""
     spec = dict(module='selftest')
@@ -2175,7 +2318,14 @@ def translator_selftest():
         ld = Loader(srcs, only=True)
         tree = ld.tree('moda')
         return FnTranslator(tree, find_function(tree, 'f'), SELFTEST5_SPEC, 'f', modname='moda', loader=ld).translate()
+    def tr6(srcs):
+        ld = Loader(srcs, only=True)
+        tree = ld.tree('modl')
+        return FnTranslator(tree, find_function(tree, 'f'), SELFTEST6_SPEC, 'f', modname='modl', loader=ld).translate()
     try:
+        p6 = tr6(SELFTEST6_OK)
+        if p6.oracle_params != [TW_KEY] or any(p6.body.count(k) != c for k, c in (('EFft ', 1), ('EIfft ', 1), ('ENextPow2 ', 1), ('EPow2 ', 1), ('EReal ', 1), ('SResize ', 1))):
+            return ['base case 6: unexpected translation']
         p5 = tr5(SELFTEST5_OK)
         if len(p5.oracle_params) != 2 or p5.body.count('SCall [') != 1 or p5.body.count('SResize ') != 2 or p5.body.count('ECopy ') != 2:
             return ['base case 5: unexpected translation']
@@ -2205,6 +2355,15 @@ def translator_selftest():
         assert old in SELFTEST4_OK[mod], what
         try:
             tr4(dict(SELFTEST4_OK, **{mod: SELFTEST4_OK[mod].replace(old, new, 1)}))
+            bad.append(what)
+        except Untranslatable:
+            pass
+        except SyntaxError as e:     # pragma: no cover
+            bad.append('%s (self-test edit does not parse: %s)' % (what, e))
+    for what, mod, old, new in SELFTEST6_BAD:
+        assert old in SELFTEST6_OK[mod], what
+        try:
+            tr6(dict(SELFTEST6_OK, **{mod: SELFTEST6_OK[mod].replace(old, new, 1)}))
             bad.append(what)
         except Untranslatable:
             pass
@@ -3151,6 +3310,9 @@ from props import _loopir_arma as _arma       # noqa: E402
 GENERATORS['arma_estimate'] = _arma.gen_arma_estimate
 EXACT_BUDGET['arma_estimate'] = (44, 260)
 EXTRA_MODULES['arma_estimate'] = 'Spectrum.Model.LoopIRArma'
+VEC_GENERATORS['lpc'] = _arma.gen_lpc
+EXACT_BUDGET['lpc'] = (40, 200); FLOAT_BUDGET['lpc'] = (60, 400)
+EXTRA_MODULES['lpc'] = 'Spectrum.Model.LoopIRLpc'
 EXACT_SHARD = {'arma_estimate': (1, 4)}       # cases per file of the exact comparison (default 24 / 100): these cases take 1..20 s each
 
 # ---------------------------------------------------------------- LEVINSON: translation + theorem
@@ -4021,7 +4183,7 @@ def loopir_tie(ctx, names):
     t0 = time.time()
     info = ctx.extra.setdefault('loopir', {})
     wrong = translator_selftest()
-    info['translator_selftest'] = {'edits_that_must_be_rejected': len(SELFTEST_BAD) + len(SELFTEST2_BAD) + len(SELFTEST3_BAD) + len(SELFTEST4_BAD) + len(SELFTEST5_BAD), 'wrongly_accepted': wrong}
+    info['translator_selftest'] = {'edits_that_must_be_rejected': len(SELFTEST_BAD) + len(SELFTEST2_BAD) + len(SELFTEST3_BAD) + len(SELFTEST4_BAD) + len(SELFTEST5_BAD) + len(SELFTEST6_BAD), 'wrongly_accepted': wrong}
     if wrong:
         ctx.broken.append({'theorem': 'loopir: translator self-test (fail-closed behaviour)', 'where': '_loopir.py', 'log': '; '.join(wrong)})
     progs = {}
@@ -4146,7 +4308,7 @@ def loopir_tie(ctx, names):
         bad = ctx.coq_cases('loopir_%s' % nm, pre, c.exact, shard=ctx.q(*EXACT_SHARD.get(nm, (24, 100))), descr='IR program of %s (regenerated from the source) vs the hand-written model: exact equality at QcC' % nm)
         bad2 = ctx.coq_cases('loopir_%s_impl' % nm, pre, c.impl, shard=(EXACT_SHARD[nm][0] if nm in EXACT_SHARD else 250), descr='IR program of %s run at QcC vs the implementation (float tolerance): sanity of the translation' % nm)
         bad3 = ctx.coq_cases('loopir_%s_ls' % nm, pre, c.spec, shard=ctx.q(12, 45), descr=c.spec_descr) if c.spec else []
-        bad4 = ctx.coq_cases('loopir_%s_float' % nm, _vec.PRE_FLT + defs + _vec.PRE_FLT_TAIL, c.flt, shard=ctx.q(20, 60),
+        bad4 = ctx.coq_cases('loopir_%s_float' % nm, _vec.PRE_FLT + ''.join('Require Import %s.\n' % m for m in extra) + defs + _vec.PRE_FLT_TAIL, c.flt, shard=ctx.q(20, 60),
                              descr='IR program of %s run at binary64 (twiddle table from the harness) vs the hand-written model (bit for bit where the model performs the same '
                                    'operations) and vs the implementation (tolerance of the existing correspondence)' % nm) if c.flt else []
         return nm, c, bad, bad2, bad3, bad4
